@@ -25,7 +25,7 @@ MUST_REACH = ["hessenbergize:n<=2", "householder:alpha_zero", "class:already_hes
 C = 1e3
 CLASSES = ["cancelling_tail", "equal_moduli_tail", "gauss", "hessenberg", "upper_tri", "lower_tri", "hermitian", "zero_subcolumns", "zero_matrix", "identity", "int", "sparse",
            "pure_imag", "single_axis", "rank1", "nilpotent", "scaled_small", "scaled_big", "layout", "tridiag", "unitary", "companion",
-           "near_hessenberg", "graded_columns", "nearly_hermitian"]
+           "near_hessenberg", "graded_columns", "nearly_hermitian", "block_upper_tri", "block_diag"]
 
 _REACH = None
 
@@ -134,6 +134,23 @@ def make(rng, cls, n):
                 c[j + 2:, j] = 0.0           # nothing to eliminate in column j
             elif rng.random() < 0.5:
                 c[j + 1:, j] = 0.0           # whole sub-column zero: alpha == 0
+        return refq.qa(c)
+    if cls in ("block_upper_tri", "block_diag"):
+        # reducible input [[A11, A12], [0, A22]] with a DENSE leading block (order >= 3 when n allows): the columns of the leading block need
+        # genuine reflectors (which act as the identity on the trailing rows), then comes a column that is ALREADY reduced (exact zeros below
+        # its sub-diagonal, non-real sub-diagonal entry or none) while the accumulated P is no longer real; the trailing block is dense,
+        # Hessenberg or triangular
+        c = rng.standard_normal((n, n, 4))
+        p_ = max(1, min(n - 1, int(rng.integers(3, max(4, n - 1))))) if n >= 2 else 1
+        c[p_:, :p_] = 0.0
+        if cls == "block_diag":
+            c[:p_, p_:] = 0.0
+        tk = int(rng.integers(0, 3))
+        for j in range(p_, n):
+            if tk == 1:
+                c[j + 2:, j] = 0.0
+            elif tk == 2:
+                c[j + 1:, j] = 0.0
         return refq.qa(c)
     if cls == "zero_matrix":
         return refq.zeros(n, n)
